@@ -1,7 +1,7 @@
 ---------------------------- MODULE MC_Grading ----------------------------
 EXTENDS Grading
 AllScripts == {"plain", "override", "override_twice", "suppress", "crashing", "formatter", "mocks", "sections",
-               "pools", "partial", "groups", "tifa_types", "classhook", "raiser_a", "raiser_b", "qpool"}
+               "pools", "partial", "groups", "tifa_types", "classhook", "raiser_a", "raiser_b", "qpool", "plain_notifa"}
 QuickScripts == {"plain", "override_twice", "suppress", "crashing", "sections", "pools", "mocks"}
 \* what each script of bind/grading.py dirties
 W == [s \in AllScripts |->
@@ -19,17 +19,20 @@ W == [s \in AllScripts |->
           [] s = "groups" -> {"feedback", "tooldata"}
           [] s = "tifa_types" -> {"feedback", "tooldata", "builtin_modules"}
           [] OTHER -> {"feedback", "tooldata"}]
-AllSubs == {"ok", "crash", "mathmut", "syntax", "unused", "parts", "mathy", "attrassign", "attrlit", "methodcall", "pltassign", "pltcall", "uselen", "realmut"}
+AllSubs == {"ok", "crash", "mathmut", "syntax", "unused", "parts", "mathy", "attrassign", "attrlit", "methodcall", "pltassign", "pltcall", "uselen", "realmut", "modset", "modget"}
 \* submissions whose analysis writes / reads the method tables of TIFA's value types
 \* ... and submissions that write / read TIFA's types of the builtin MODULES (attribute assignment on an imported module)
 SW == [s \in AllSubs |-> IF s \in {"attrassign", "attrlit"} THEN {"type_tables"}
                           ELSE IF s \in {"pltassign", "mathmut"} THEN {"builtin_modules"}
                           \* ... and a submission that, when EXECUTED, assigns to an attribute of the real standard module
                           \* it imported (the sandbox hands out the interpreter's own module objects)
-                          ELSE IF s = "realmut" THEN {"real_modules"} ELSE {}]
+                          ELSE IF s = "realmut" THEN {"real_modules"}
+                          \* ... and one that imports a standard module nothing has loaded yet and changes its module-level state
+                          ELSE IF s = "modset" THEN {"fresh_modules"} ELSE {}]
 SR == [s \in AllSubs |-> IF s = "methodcall" THEN {"type_tables"}
                           ELSE IF s = "pltcall" THEN {"builtin_modules"}
-                          ELSE IF s = "mathy" THEN {"builtin_modules", "real_modules"} ELSE {}]
+                          ELSE IF s = "mathy" THEN {"builtin_modules", "real_modules"}
+                          ELSE IF s = "modget" THEN {"fresh_modules"} ELSE {}]
 \* every grading resolves and renders feedback, so it reads everything that influences the result
 R == [s \in AllScripts |-> Slots \ {"class_hooks"}]
 \* Report.clear(): feedback lists, suppressions, hiddens, tool data (hence the sandbox instance with its mocks and
@@ -37,7 +40,9 @@ R == [s \in AllScripts |-> Slots \ {"class_hooks"}]
 \* TIFA's reset rebuilds the builtin module types.
 CodeClearResets == {"feedback", "suppressions", "hiddens", "hooks", "tooldata", "formatter", "overrides",
                     "sandbox_mocks", "tracer", "sections", "builtin_modules", "pools",
-                    "type_tables", "question_pools"}     \* every type VALUE copies its class' method table (Type.__init__), so nothing outlives the analysis
+                    "type_tables", "question_pools",
+                    "fresh_modules"}     \* every execution ends by putting the module table back: what student code imported first is unloaded     \* every type VALUE copies its class' method table (Type.__init__), so nothing outlives the analysis
 PinnedClearResets == CodeClearResets \ {"pools", "question_pools"}
 SharedTables == CodeClearResets \ {"type_tables"}
+ModulesStay == CodeClearResets \ {"fresh_modules"}
 =============================================================================
